@@ -1,5 +1,5 @@
 #!/bin/sh
 # usage: tools/run_all.sh [quick|thorough] [parallelism]   -- runs every check, prints a summary table
 TIER=${1:-quick}; PAR=${2:-3}
-cd /verif; mkdir -p work/logs
+cd "$(dirname "$0")/.."; mkdir -p work/logs
 ls harness/props | grep '^c[0-9]*\.py$' | sed 's/\.py//' | tr a-z A-Z | xargs -P $PAR -I{} sh -c 'S=$(date +%s); ./check {} --tier '"$TIER"' > work/logs/{}.out 2> work/logs/{}.err; rc=$?; E=$(date +%s); echo "{} rc=$rc $((E-S))s viol=$(grep -c "^VIOLATION" work/logs/{}.out) known=$(grep -c "^KNOWN-FINDING" work/logs/{}.out)"' | sort
